@@ -182,6 +182,50 @@ def run(ctx):
         if len(ctx.samples) < 2:
             ctx.sample({"profile": kind, "args": s, "stresses": [a, b, c]})
 
+    # ---- (b2) non-convex shapes (bounding box centred on the origin): chords ------------------------------
+    from pyroll.core import Profile
+    from shapely.geometry import Polygon
+    from shapely.affinity import translate as _tr
+    for i in range(ctx.budget(25, 800)):
+        n = rng.randrange(5, 12)
+        sc = math.exp(rng.uniform(-5, 0))
+        pts = []
+        for k in range(n):                                    # star-shaped polygon with alternating radii: non-convex
+            ang = 2 * math.pi * k / n + rng.uniform(-0.2, 0.2) / n
+            rad = sc * (rng.uniform(0.35, 0.6) if k % 2 else rng.uniform(0.8, 1.0))
+            pts.append((rad * math.cos(ang), rad * math.sin(ang)))
+        poly = Polygon(pts)
+        if not poly.is_valid or poly.is_empty:
+            continue
+        b = poly.bounds
+        poly = _tr(poly, xoff=-(b[0] + b[2]) / 2, yoff=-(b[1] + b[3]) / 2)
+        replay = {"factory": "Profile.from_polygon", "points": [list(c) for c in poly.exterior.coords]}
+        ctx.case(["star", n, round(sc, 9), [round(x, 9) for x, _ in pts[:3]]], nontrivial=not poly.equals(poly.convex_hull))
+        ctx.count("profile:nonconvex")
+        try:
+            p = Profile.from_polygon(poly, classifiers={"star"})
+            A, w, h = p.cross_section.area, p.width, p.height
+            zs = np.linspace(-w / 2 * 1.1, w / 2 * 1.1, 801)
+            hz = np.array([float(p.local_height(z)) for z in zs])
+            ys = np.linspace(-h / 2 * 1.1, h / 2 * 1.1, 801)
+            wy = np.array([float(p.local_width(y)) for y in ys])
+            ew, eh, er = p.equivalent_width, p.equivalent_height, p.equivalent_radius
+        except Exception as ex:
+            import traceback
+            if any("/pyroll/" in f.filename for f in traceback.extract_tb(ex.__traceback__)):
+                ctx.violation("profile-hook-raises", f"{type(ex).__name__}: {ex}", replay)
+                continue
+            raise
+        if (hz > h * (1 + 1e-9) + 2.5e-12).any() or (wy > w * (1 + 1e-9) + 2.5e-12).any():
+            ctx.violation("chord-exceeds-extent", "a chord of a non-convex shape exceeds the overall height/width", replay)
+        if (hz[np.abs(zs) > w / 2 * (1 + 1e-9)] != 0).any() or (wy[np.abs(ys) > h / 2 * (1 + 1e-9)] != 0).any():
+            ctx.violation("chord-nonzero-outside", "chord non-zero outside the shape", replay)
+        # chords are piecewise linear in the query coordinate between vertices: trapezoid error O(step * jump count)
+        if _rel(_trapz(hz, zs), A) > 3e-2 or _rel(_trapz(wy, ys), A) > 3e-2:
+            ctx.violation("chord-integral", f"chords of a non-convex shape integrate to {_trapz(hz, zs)} / {_trapz(wy, ys)}, area {A}", replay)
+        if _rel(ew * eh, A) > tol or _rel(ew / eh, w / h) > tol or _rel(math.pi * er ** 2, A) > tol:
+            ctx.violation("equivalent-rectangle-nonconvex", "equivalent rectangle/radius identities fail for a non-convex shape", replay)
+
     # ---- (c) roll: thermal identities ---------------------------------------------------------------
     from pyroll.core import Roll, BoxGroove
     g = BoxGroove(r1=1e-3, r2=2e-3, depth=5e-3, usable_width=20e-3, ground_width=15e-3)
